@@ -4,7 +4,7 @@ MAXC = 0x2FFFF
 TIMEOUT = 900
 ASSUMPTIONS = ["Rust chars exclude surrogates: texts given to From<&str>/parse_smt_literal are built from valid chars only; the integer constructors get arbitrary u32 (incl. surrogate values, which are valid SMT characters)",
                "every produced string is checked with is_good, turned into a regular expression with ReManager::str, matched against it and printed"]
-PARTIAL = ["str_total (ReManager::str never panics on a good string) is covered by the correspondence only until the constructor proofs (C01) are linked"]
+PARTIAL = []
 
 SPECIAL = [0, 1, 0x22, 0x5C, 0x7F, 0x80, 0xD7FF, 0xE000, 0xFFFD, 0xFFFF, 0x10000, MAXC - 1, MAXC, MAXC + 1, 0x30000, 0xE0000, 0x10FFFF]
 SPECIAL_U32 = SPECIAL + [0xD800, 0xDFFF, 0x110000, 2 ** 31, 2 ** 32 - 1]
